@@ -58,7 +58,7 @@ PROPS = {
         "engines": ["clientcache"],
         "oracle_engine": {"clientcache": "sc"},
         "trusted": ["time is a parameter of the model"],
-        "technique": "Lean 4 theorems (command-map key injectivity under no-comma, MapCommand touches exactly one route, resume only via the routed triple, drop on failure, invalidate/expire remove routes) + correspondence of real client handshakes over (tag, server, command) histories against model and an independent reference map",
+        "technique": "Lean 4 theorems (command-map key injectivity for all strings (prefix-code argument over the comma escaping), MapCommand touches exactly one route, resume only via the routed triple, drop on failure, invalidate/expire remove routes) + correspondence of real client handshakes over (tag, server, command) histories against model and an independent reference map",
         "level_text": "key_injective (for ALL tags, addresses and commands: commas inside a part are escaped; comma_triples_distinct is the pair that collided before the fix), mapCommand_route, resume_only_routed, drop_on_failure, next_is_full, invalidate_removes_routes, expire_removes_routes, WF preservation: kernel-checked. Tied to the code by the clientcache engine: histories of real ClientHandshake calls over 4 tags x 5 addresses x 3 commands with server restarts, broken connections, expiry, invalidation; all 60 routes compared after every step with the model and with a reference map kept by the spec rules.",
         "level_note": "No assumption on the characters of tags, addresses or commands remains (the comma collision found by the theorem was confirmed on the real cache and repaired).",
         "assumptions": [],
